@@ -17,7 +17,7 @@ RULE = ("every operation of the generator (all families) plus operations that cr
         "linspace, arange, pad, where with scalars, take with indices, broadcast_to, reshape, map_blocks with block ids, meshgrid, "
         "unstack) is built and computed under the configuration variants {global default config, explicit Spec equal to it, other "
         "work_dir, intermediate_store object, compressor none / default / explicit codec, reserved_mem, threads executor, larger "
-        "allowed_mem}: the acceptance decision (exception phase and type) and the values must equal those under the baseline. "
+        "allowed_mem}, and (tight budgets) Specs that leave the same memory for data but reserve 0 / 1 kB / as much again / 100 MB, threads with batch_size 1 / 3, arrays in parallel: the acceptance decision (exception phase and type) and the values must equal those under the baseline. "
         "K: projected memory minus reserved memory of every op of the real plans is the same under all variants, and equals "
         "Model.Memory.calc_projected with reserved 0 shifted (Coq: projected_minus_reserved_independent). "
         "non-trivial = operation that creates a helper array or has >=2 array arguments; distinct = operation x variant")
@@ -197,6 +197,81 @@ def work(part, items):
     part.sample({"items": [str(i) for i in items[:3]]}, limit=1)
 
 
+def tight_work(part, n):
+    """the same expression under Specs that leave the SAME memory for data (allowed_mem - reserved_mem = X, with X just
+    enough) but reserve different amounts, or batch / order tasks differently: acceptance and values must not change"""
+    import cubed
+    import cubed.array_api as xp
+    from cubed.runtime.create import create_executor
+
+    for _ in range(n):
+        kind = part.rng.choice(["rechunk", "rechunk", "sum", "matmul", "elementwise"])
+        n0, n1 = part.rng.randint(20, 60), part.rng.randint(20, 60)
+        an = np.arange(n0 * n1, dtype="float64").reshape(n0, n1) + 1
+        c0, c1 = part.rng.choice([1, 2, 3, n0 // 2]), part.rng.randint(max(1, n1 // 2), n1)
+        if kind == "rechunk":
+            tgt = (part.rng.randint(max(1, n0 // 2), n0), part.rng.choice([1, 2, 3]))
+            build = lambda spec: xp.asarray(an, chunks=(c0, c1), spec=spec).rechunk(tgt)
+            want = an
+        elif kind == "sum":
+            build = lambda spec: xp.sum(xp.asarray(an, chunks=(c0, c1), spec=spec), axis=0)
+            want = an.sum(axis=0)
+        elif kind == "matmul":
+            build = lambda spec: xp.matmul(xp.asarray(an, chunks=(c0, c1), spec=spec), xp.asarray(an.T.copy(), chunks=(c1, c0), spec=spec))
+            want = an @ an.T
+        else:
+            build = lambda spec: xp.negative(xp.asarray(an, chunks=(c0, c1), spec=spec)) * 2 + 1
+            want = -an * 2 + 1
+        desc0 = {"tight": kind, "shape": (n0, n1), "chunks": (c0, c1)}
+        # X: the smallest budget (reserved 0) under which the expression is accepted, found by probing the real planner
+        try:
+            with warnings.catch_warnings():
+                warnings.simplefilter("ignore")
+                big = build(cubed.Spec(allowed_mem="500MB", reserved_mem=0)).plan()
+            need = int(big.max_projected_mem)
+        except Exception:
+            continue
+        X = None
+        for f in (0.02, 0.04, 0.07, 0.1, 0.15, 0.25, 0.4, 0.6, 0.8, 1.0, 1.5, 2, 3, 6, 20):     # ascending: the smallest accepted budget
+            try:
+                with warnings.catch_warnings():
+                    warnings.simplefilter("ignore")
+                    y = build(cubed.Spec(allowed_mem=int(need * f), reserved_mem=0))
+                    y.plan()
+                    v0 = np.asarray(y.compute())
+                X = int(need * f)
+                break
+            except ValueError:
+                continue
+            except Exception:
+                break
+        if X is None:
+            continue
+        part.evaluations += 1
+        part.count("tight:" + kind)
+        part.nt(desc0)
+        if not np.array_equal(v0, want):
+            part.fail(f"values-depend-on-config:tight-{kind}", f"{kind}: wrong values under the tight baseline budget {X}", desc0)
+        for vname, kw in [("reserved-small", dict(allowed_mem=X + 1000, reserved_mem=1000)), ("reserved-equal-data", dict(allowed_mem=2 * X, reserved_mem=X)),
+                          ("reserved-dominant", dict(allowed_mem=X + 100_000_000, reserved_mem=100_000_000)),
+                          ("threads-batch-1", dict(allowed_mem=X, reserved_mem=0, executor_name="threads", executor_options=dict(batch_size=1))),
+                          ("threads-batch-3", dict(allowed_mem=X, reserved_mem=0, executor_name="threads", executor_options=dict(batch_size=3))),
+                          ("processes-like-threads-parallel-arrays", dict(allowed_mem=X, reserved_mem=0, executor_name="threads",
+                                                                         executor_options=dict(compute_arrays_in_parallel=True)))]:
+            desc = {**desc0, "variant": vname, "spec": {k: v for k, v in kw.items()}, "baseline_allowed_mem": X}
+            part.count("variant:" + vname)
+            try:
+                with warnings.catch_warnings():
+                    warnings.simplefilter("ignore")
+                    v = np.asarray(build(cubed.Spec(**kw)).compute())
+            except Exception as e:
+                part.fail(f"acceptance-depends-on-config:tight-{kind}", f"{kind}: accepted with allowed_mem={X}, reserved_mem=0 but {type(e).__name__} under {vname} "
+                                                                        f"({str(e)[:100]}), although the memory left for data is the same", desc)
+                continue
+            if v.shape != v0.shape or not np.array_equal(v, v0):
+                part.fail(f"values-depend-on-config:tight-{kind}", f"{kind}: values under {vname} differ from those under the baseline configuration", desc)
+
+
 def k_model(ctx):
     from cubed.primitive.memory import BufferCopies, calculate_projected_mem
 
@@ -222,6 +297,7 @@ def run(ctx):
     ctx.rng.shuffle(items)
     chunks = [items[i::12] for i in range(12)]
     pmap(ctx, work, [c for c in chunks if c], procs=12)
+    pmap(ctx, tight_work, [4] * (ctx.n(24, 600) // 4), procs=6)
 
 
 def search(ctx):
